@@ -1,4 +1,4 @@
-(* C01 oracle and non-triviality on wiring cases. Correspondence: Corr/Wiring.v [wcheck];
+(* C06 oracle and non-triviality on wiring cases. Correspondence: Corr/Wiring.v [wcheck];
    oracles: Corr/WiringOracles.v (static scenario data + the implementation's observation only). *)
 From Coq Require Import List Arith Bool.
 From IocVerif Require Import Model.App Corr.Wiring Corr.WiringOracles.
@@ -6,10 +6,10 @@ Import ListNotations.
 
 Definition check_case : wcase -> bool := wcheck.
 
-(* after a successful start every version held anywhere equals the by-name lookup of its component *)
-Definition oracle_case (c : wcase) : bool := oracle_one_version c.
+(* unnamed points receive only compatible providers; slices all of them exactly once except the holder; single points one *)
+Definition oracle_case (c : wcase) : bool := oracle_points c && oracle_points_sound c.
 
-Definition nontrivial (c : wcase) : bool := ok_start c && shared c 2.
+Definition nontrivial (c : wcase) : bool := ok_start c && (1 <=? count_points c (fun h kp => match pt_sel (snd kp) with SByName _ => false | _ => 2 <=? length (providers c h (snd kp)) end)).
 
 Definition mismatches (cs : list wcase) : list nat := wmismatches cs.
 Definition violations (cs : list wcase) : list nat :=
